@@ -384,6 +384,7 @@ func Program(t *rapid.T, c Cfg) *Generated {
 	case 1:
 		c.MaxFns, c.MaxStmts, c.MaxDepth, c.BlockDepth = 2, 3, 2, 2
 	}
+	printObjects = c.PrintObjects
 	g := &G{t: t, c: c, Feat: map[string]int{}, usesHost: map[string]bool{}}
 	m := &hs.Module{Name: "main"}
 	g.mod = m
